@@ -178,6 +178,28 @@ def _parse_full_length(term: str, repo=None, buf: Optional[str] = None):
     return None
 
 
+def buffer_anchor(repo):
+    """The rules about the receive buffer read it as the bytes-valued attribute ``raw_pdu`` of the provider, written by plain
+    assignments.  When it is not that any more (kept in an object of its own, behind a property) what the rules would say
+    about it is not a verdict: the analysis stops."""
+    c = repo.cls('dulprovider', 'DULServiceProvider')
+    if 'raw_pdu' in c.setters or (c.find_method('raw_pdu') is not None):
+        raise AnalysisError('%s: the receive buffer raw_pdu is a computed property; its representation (%s) is not modelled'
+                            % (c.loc(), 'an object of a helper class' if any(repo.is_helper_class(k) for k in repo.all_classes()
+                                                                              if k.module.name == 'dulprovider') else 'not a bytes attribute'))
+    n = 0
+    for f in list(c.methods.values()):
+        for x in ast.walk(f.node):
+            tg = x.targets if isinstance(x, ast.Assign) else [x.target] if isinstance(x, (ast.AugAssign, ast.AnnAssign)) else []
+            for t in tg:
+                ch = attr_chain(t)
+                if ch and list(ch) == ['self', 'raw_pdu']:
+                    n += 1
+    if n == 0:
+        raise AnalysisError('%s: nothing assigns self.raw_pdu: the receive buffer is not the bytes attribute the rules read' % c.loc())
+    return n
+
+
 def drain_order_problems(finals):
     """B3 core (shared with C05.G7 and C14.J4): on every path through _check_network the bytes just received are
     offered to the framer before returning, and the socket is only read when the buffer was offered to the framer first
@@ -221,6 +243,7 @@ def run(repo, rep):
              'iteration: the queue is empty whenever a slot-writing producer may run', 1)
 
     # ---------------------------------------------------------------- B1
+    buffer_anchor(repo)
     writers = []
     for c in repo.all_classes():
         for f in list(c.methods.values()) + list(c.setters.values()):
